@@ -132,6 +132,13 @@ func (f *formatter) WriteDescription(s string) *formatter {
 		return f
 	}
 
+	if !blockStringCanHold(s) {
+		// the block string layout used below would not read back as s;
+		// a quoted string can hold any text
+		f.WriteString((&ast.Value{Kind: ast.StringValue, Raw: s}).String()).WriteNewline()
+		return f
+	}
+
 	f.WriteString(`"""`)
 	// a block string can only contain its own delimiter in escaped form
 	ss := strings.Split(strings.ReplaceAll(s, `"""`, `\"""`), "\n")
@@ -143,6 +150,31 @@ func (f *formatter) WriteDescription(s string) *formatter {
 	f.WriteString(`"""`).WriteNewline()
 
 	return f
+}
+
+// blockStringCanHold reports whether s, written one line per line between
+// """ delimiters on lines of their own, reads back as s. A block string loses
+// the indentation common to all its lines and its leading and trailing blank
+// lines, turns every line terminator into a line feed and cannot contain
+// control characters.
+func blockStringCanHold(s string) bool {
+	lines := strings.Split(s, "\n")
+	isBlank := func(l string) bool { return strings.Trim(l, " \t") == "" }
+	if isBlank(lines[0]) || isBlank(lines[len(lines)-1]) {
+		return false
+	}
+	indented := true
+	for _, l := range lines {
+		for _, r := range l {
+			if r < 0x20 && r != '\t' {
+				return false
+			}
+		}
+		if !isBlank(l) && l[0] != ' ' && l[0] != '\t' {
+			indented = false
+		}
+	}
+	return !indented
 }
 
 func (f *formatter) IncrementIndent() {
